@@ -163,9 +163,9 @@ theorem C04_valid_restrict (cfg : Cfg) (st : St) (hU : (st.live.map (·.id)).Nod
 
 /-! ### non-vacuity -/
 private def cfg0 : Cfg := { maxIdle := 2, histLen := 3, batchIds := false, thr := 300000 }
-private def st0 : St := { epochs := [(0, 1), (5, 1)], live := [⟨1, 0, 1, 1, none, [1], false⟩, ⟨2, 5, 1, 1, none, [2], false⟩], nextId := 2 }
+private def st0 : St := { epochs := [(0, 1), (5, 1)], live := [(Trk.simple 1 0 1 1 none [1]), (Trk.simple 2 5 1 1 none [2])], nextId := 2 }
 /-- a table entry pointing at the other scene's track makes the choice invalid -/
-example : predictScene cfg0 st0 0 [⟨3, none⟩] [⟨0, 2, 900000⟩] [.cont 2 false] 0 0 = none := by decide +kernel
-example : (predictScene cfg0 st0 0 [⟨3, none⟩] [⟨0, 1, 900000⟩] [.cont 1 false] 0 0).isSome = true := by decide +kernel
+example : predictScene cfg0 st0 0 [(Det.simple 3 (none))] [⟨0, 2, 900000⟩] [.cont 2 false] 0 0 = none := by decide +kernel
+example : (predictScene cfg0 st0 0 [(Det.simple 3 (none))] [⟨0, 1, 900000⟩] [.cont 1 false] 0 0).isSome = true := by decide +kernel
 
 end SimVerif.C04
